@@ -1,5 +1,7 @@
 import SnaxVerif.Lemmas.Cores
 import SnaxVerif.Lemmas.CoreSched
+import SnaxVerif.Lemmas.CoresModule
+import SnaxVerif.Lemmas.CoresDispatch
 import SnaxVerif.Props.C14
 /-!
 C13 — cross-core dependencies are separated by a cluster barrier.
@@ -398,6 +400,49 @@ example :
     ∀ core, core < 3 →
       ((Dispatch.runF core (fun _ _ _ => []) (Dispatch.dispatch false true 3 f) 1 0).filter
         (fun l => l.kind == .other)).map (·.id) = [2] := by
+  decide
+
+/-- Unconditional form: a function before `dispatch-regions` has no core guard (`gfB`) and no core-id prelude, so
+after the pass EVERY two cores meet exactly the same barriers in the same order, for every number of cores and every
+resolution of the control flow - barrier k of one core is barrier k of every other core, no core waits alone. -/
+theorem every_core_meets_the_same_barriers (r : Bool) (f : Dispatch.Func) (hpre : f.pre = [])
+    (hgf : ∀ bb ∈ f.blocks, Dispatch.gfB bb.body = true) (nb c1 c2 : Nat) (orc : Dispatch.Orc) (fuel entry : Nat)
+    (isBarrier : Dispatch.Leaf → Bool)
+    (hb : ∀ l, isBarrier l = true → Dispatch.dmOf l = false ∧ Dispatch.cpOf r l = false) :
+    (Dispatch.runF c1 orc (Dispatch.dispatch r true nb f) fuel entry).filter isBarrier =
+      (Dispatch.runF c2 orc (Dispatch.dispatch r true nb f) fuel entry).filter isBarrier :=
+  barriers_same_on_all_cores r f nb c1 c2 orc fuel entry isBarrier hb
+    (Dispatch.runF_guard_free f hpre hgf c1 c2 orc fuel entry)
+
+/-! ## modules: the pending list survives from one function to the next
+
+`InsertSyncBarrier.apply` walks the whole module once; `ops_to_sync` is never reset between functions
+(`walkModule`). -/
+
+/-- The surviving state is harmless: for a module whose functions have disjoint operations, the one walk over the
+module yields for every function exactly what the pass yields for that function alone - so every theorem above
+about `insertBarriers` holds for each function of a module, in whatever order the functions appear. -/
+theorem C13_module_stateless (fx : Fix) (rt : Nat → Nat) (fs : List Blk)
+    (hdis : fs.Pairwise (fun f g => ∀ z ∈ idsB f, z ∉ idsB g)) :
+    walkModule fx rt fs [] = fs.map (insertBarriers fx rt) :=
+  walkModule_independent fx rt fs [] hdis (fun _ _ _ h => by simp at h)
+
+/-- the same with anything pending on entry that names no operation of the module (e.g. left over from
+declarations or from operations outside any function) -/
+theorem C13_module_stateless_pending (fx : Fix) (rt : Nat → Nat) (fs : List Blk) (P : List Nat)
+    (hdis : fs.Pairwise (fun f g => ∀ z ∈ idsB f, z ∉ idsB g)) (hP : ∀ f ∈ fs, ∀ z ∈ P, z ∉ idsB f) :
+    walkModule fx rt fs P = fs.map (insertBarriers fx rt) :=
+  walkModule_independent fx rt fs P hdis hP
+
+/-- two functions: the first leaves its consumer and its dealloc pending at its end; the second is processed as if
+alone (`copy %0 -> %1 ; generic ins(%1) outs(%2)` twice, ids 1-2 and 11-12) -/
+example :
+    let f := Blk.leaf (mk 1 .dm [0, 1] [0] [1]) (.leaf (mk 2 .cp [1, 2] [1] [2]) .nil)
+    let g := Blk.leaf (mk 11 .dm [0, 1] [0] [1]) (.leaf (mk 12 .cp [1, 2] [1] [2]) .nil)
+    walkModule Fix.all id [f, g] [] =
+      [.leaf (mk 1 .dm [0, 1] [0] [1]) (.sync (.leaf (mk 2 .cp [1, 2] [1] [2]) .nil)),
+       .leaf (mk 11 .dm [0, 1] [0] [1]) (.sync (.leaf (mk 12 .cp [1, 2] [1] [2]) .nil))] ∧
+    (walkB Fix.all (leavesB f) id (topCtx f) f []).2 ≠ [] := by
   decide
 
 end SnaxVerif.C13
